@@ -355,11 +355,9 @@ def run_special(ctx, case):
       sch.switch("join control2", pred=lambda: st2.status == "done",
                  blocked_on="join control2")
     drained = False
-    for _ in range(400):
-      if sch.all_others_done(h.main):
-        drained = True
-        break
-      sch.switch("drain")
+    sch.switch("drain", pred=lambda: sch.all_others_done(h.main),
+               blocked_on="drain: players retire")
+    drained = True
   sch = h.sched
   ctx.count("scenarios")
   ctx.count("special:" + kind)
@@ -459,14 +457,14 @@ def run_case(ctx, case):
     sch = h.sched
     play_history(specs, initial, hist, wait, style, handles, stopped, flow,
                  lambda: sch.switch("idle"))
-    # stimulus-free drain: players already unregistered retire on their own
-    for _ in range(300):
-      if sch.all_others_done(h.main):
-        flow["drained"] = True
-        break
-      sch.switch("drain")
-    else:
-      flow["drained"] = sch.all_others_done(h.main)
+    # stimulus-free drain: players already unregistered retire on their own.
+    # The main thread blocks until they have (a random chooser that "sticks"
+    # to the main thread would otherwise starve them: that was a false alarm
+    # of an earlier version); players that cannot finish show up as an exact
+    # deadlock or as the step bound, both reported below.
+    sch.switch("drain", pred=lambda: sch.all_others_done(h.main),
+               blocked_on="drain: players retire")
+    flow["drained"] = True
   sch = h.sched
 
   # ---- evidence ---------------------------------------------------------------
